@@ -278,6 +278,10 @@ func (bc *backendConn) run() {
 	if bc.at("prejoin") {
 		return
 	}
+	// A remote backend reacts one network latency later, never within the same instant:
+	// Gate switches the backend connection's session handler a few instructions after it
+	// wrote the FinishedUpdate acknowledgement (window documented in DESIGN.md §7).
+	simrt.Sleep(time.Millisecond, "backend.latency")
 	if err := bc.send(joinGameFor(w.prot, 100+bc.idx)); err != nil {
 		bc.noteEOF()
 		return
@@ -336,4 +340,16 @@ func joinGameFor(p proto.Protocol, entityID int) *packet.JoinGame {
 		DimensionInfo: &packet.DimensionInfo{RegistryIdentifier: lvl, LevelName: &lvl}, PreviousGamemode: -1,
 	}
 	return j
+}
+
+func (b *backendModel) describe() string {
+	out := ""
+	for _, bc := range b.Conns {
+		last := ""
+		if n := len(bc.w.Recv); n > 0 {
+			last = bc.w.Recv[n-1].String()
+		}
+		out += fmt.Sprintf("[conn%d phase=%s joined=%v err=%v lastErr=%v recv=%d last=%s]", bc.idx, bc.Phase, bc.Joined, bc.Err, bc.w.lastErr, len(bc.w.Recv), last)
+	}
+	return out
 }
